@@ -61,6 +61,7 @@ Definition iwf (s : st) (ci : citem) : Prop :=
   match ci_kind ci with
   | KMeth a _ _ => last_tgt (tr s) (ci_uid ci) = Some (a, false)
   | KPrep a _ _ => last_tgt (tr s) (ci_uid ci) = Some (a, true)
+  | KPlain _ => last_tgt (tr s) (ci_uid ci) = None
   | _ => True
   end.
 
@@ -77,14 +78,14 @@ Definition nwf (s : st) (n : node) : Prop :=
 
 (* later state: uids only grow, the trace only grows, and the target events added are about uids that were not
    handed out before *)
-Definition fresh_tgts (n : N) (evs : list ev) : Prop := forall u a p, In (ETarget u a p) evs -> (n <= u)%N.
+Definition fresh_tgts (n n' : N) (evs : list ev) : Prop := forall u a p, In (ETarget u a p) evs -> (n <= u < n')%N.
 
 Definition sle (s s' : st) : Prop :=
-  (nuid s <= nuid s')%N /\ exists evs, tr s' = evs ++ tr s /\ fresh_tgts (nuid s) evs.
+  (nuid s <= nuid s')%N /\ exists evs, tr s' = evs ++ tr s /\ fresh_tgts (nuid s) (nuid s') evs.
 
-Lemma fresh_nil n : fresh_tgts n []. Proof. intros u a p []. Qed.
+Lemma fresh_nil n n' : fresh_tgts n n' []. Proof. intros u a p []. Qed.
 
-Lemma fresh_notgt n evs : forallb (fun e => negb (is_tgt e)) evs = true -> fresh_tgts n evs.
+Lemma fresh_notgt n n' evs : forallb (fun e => negb (is_tgt e)) evs = true -> fresh_tgts n n' evs.
 Proof.
   intros F u a p H. rewrite forallb_forall in F. specialize (F _ H). discriminate.
 Qed.
@@ -94,7 +95,7 @@ Lemma sle_trans a b c : sle a b -> sle b c -> sle a c.
 Proof.
   intros [A1 (x & X & FX)] [B1 (y & Y & FY)]. split; [lia|]. exists (y ++ x). split.
   - rewrite Y, X, app_assoc. reflexivity.
-  - intros u p q H. apply in_app_or in H as [H|H]; [specialize (FY _ _ _ H); lia | eapply FX; eauto].
+  - intros u p q H. apply in_app_or in H as [H|H]; [specialize (FY _ _ _ H); lia | specialize (FX _ _ _ H); lia].
 Qed.
 
 Lemma sle_ext s s' : sle s s' -> ext s s'.
@@ -198,7 +199,8 @@ Record QWF (s : st) : Prop := mkQWF {
   w_timers : qwf s (map ti_ci (timers s));
   w_env : lwf s (env s);
   w_frames : Forall (fun fr => lwf s (f_loc fr)) (frames s);
-  w_actors : forall a x, aget (actors s) a = Some x -> awf s x }.
+  w_actors : forall a x, aget (actors s) a = Some x -> awf s x;
+  w_tgts : forall u, (nuid s <= u)%N -> last_tgt (tr s) u = None }.
 
 Definition WF (k : list mop) (s : st) : Prop := kwf s k /\ QWF s.
 
@@ -217,7 +219,9 @@ Lemma QWF_transport s s' :
   QWF s -> sle s s' -> mainq s' = mainq s -> lazyq s' = lazyq s -> idleq s' = idleq s -> timers s' = timers s ->
   env s' = env s -> frames s' = frames s -> actors s' = actors s -> QWF s'.
 Proof.
-  intros [A B C D E F G H] L E1 E2 E3 E4 E5 E6 E7. constructor.
+  intros [A B C D E F G H TG] L E1 E2 E3 E4 E5 E6 E7. constructor.
+  9:{ intros u U. destruct L as [LN (evs & LE & LF)]. rewrite LE, last_tgt_app; [apply TG; lia|].
+      intros u' a p IN EQ. specialize (LF _ _ _ IN). lia. }
   - destruct L. lia.
   - rewrite E1. eapply qwf_mono; eauto.
   - rewrite E2. eapply qwf_mono; eauto.
@@ -263,21 +267,21 @@ Lemma Q_set_logfilter s v : QWF s -> QWF (set_logfilter s v). Proof. intros H. t
 Lemma Q_set_haslogger s v : QWF s -> QWF (set_haslogger s v). Proof. intros H. transport_tac. apply sle_same; reflexivity. Qed.
 
 Lemma Q_set_mainq s l : QWF s -> qwf s l -> QWF (set_mainq s l).
-Proof. intros [A B C D E F G H] L. constructor; auto. Qed.
+Proof. intros [A B C D E F G H TG] L. constructor; auto. Qed.
 Lemma Q_set_lazyq s l : QWF s -> qwf s l -> QWF (set_lazyq s l).
-Proof. intros [A B C D E F G H] L. constructor; auto. Qed.
+Proof. intros [A B C D E F G H TG] L. constructor; auto. Qed.
 Lemma Q_set_idleq s l : QWF s -> qwf s l -> QWF (set_idleq s l).
-Proof. intros [A B C D E F G H] L. constructor; auto. Qed.
+Proof. intros [A B C D E F G H TG] L. constructor; auto. Qed.
 Lemma Q_set_timers s l : QWF s -> qwf s (map ti_ci l) -> QWF (set_timers s l).
-Proof. intros [A B C D E F G H] L. constructor; auto. Qed.
+Proof. intros [A B C D E F G H TG] L. constructor; auto. Qed.
 Lemma Q_set_env s v : QWF s -> lwf s v -> QWF (set_env s v).
-Proof. intros [A B C D E F G H] L. constructor; auto. Qed.
+Proof. intros [A B C D E F G H TG] L. constructor; auto. Qed.
 Lemma Q_set_frames s fs : QWF s -> Forall (fun fr => lwf s (f_loc fr)) fs -> QWF (set_frames s fs).
-Proof. intros [A B C D E F G H] L. constructor; auto. Qed.
+Proof. intros [A B C D E F G H TG] L. constructor; auto. Qed.
 
 Lemma Q_upd_actor s a x : QWF s -> awf s x -> QWF (upd_actor s a x).
 Proof.
-  intros [A B C D E F G H] L. constructor; auto. unfold upd_actor; simpl. intros b y.
+  intros [A B C D E F G H TG] L. constructor; auto. unfold upd_actor; simpl. intros b y.
   destruct (N.eq_dec a b) as [<-|NE].
   - rewrite aget_aset_eq. intros EQ; inversion EQ; subst; auto.
   - rewrite aget_aset_neq by auto. apply H.
@@ -481,15 +485,10 @@ Qed.
 
 Lemma cwf_intro s u c k caps q :
   (u < nuid s)%N -> lwf s caps ->
-  match k with KMeth a _ _ => last_tgt (tr s) u = Some (a, false) | KPrep a _ _ => last_tgt (tr s) u = Some (a, true) | _ => True end ->
+  match k with KMeth a _ _ => last_tgt (tr s) u = Some (a, false) | KPrep a _ _ => last_tgt (tr s) u = Some (a, true)
+             | KPlain _ => last_tgt (tr s) u = None | _ => True end ->
   cwf s (CI u c k caps q).
 Proof. intros A B C. apply cwf_iff. split; auto. split; auto. Qed.
-
-Lemma inst_plain_wf c s ci s' : QWF s -> inst c KPlain s = (ci, s') -> QWF s' /\ sle s s' /\ cwf s' ci.
-Proof.
-  intros H E. destruct (inst_wf _ _ _ _ _ H E) as (H1 & L & U & N & C & K & _).
-  split; auto. split; auto. destruct ci as [u i k caps q]. simpl in *. subst. apply cwf_intro; auto.
-Qed.
 
 (* a fresh closure instance with its creation event and (for calls) its target event *)
 Lemma created_wf s1 cid k caps :
@@ -502,14 +501,23 @@ Proof.
   assert (SL : sle s1 s').
   { unfold s', target_ev. destruct k; (split; [simpl; lia|]).
     all: try (exists [EClo u cid]; split; [reflexivity | apply fresh_notgt; reflexivity]).
-    - exists [ETarget u a false; EClo u cid]. split; [reflexivity|]. intros u' a' p' [E|[E|[]]]; inversion E; subst. unfold u. lia.
-    - exists [ETarget u a true; EClo u cid]. split; [reflexivity|]. intros u' a' p' [E|[E|[]]]; inversion E; subst. unfold u. lia. }
+    - exists [ETarget u a false; EClo u cid]. split; [reflexivity|]. intros u' a' p' [E|[E|[]]]; inversion E; subst. unfold u. simpl. lia.
+    - exists [ETarget u a true; EClo u cid]. split; [reflexivity|]. intros u' a' p' [E|[E|[]]]; inversion E; subst. unfold u. simpl. lia. }
   assert (Q : QWF s').
   { eapply QWF_transport; [exact H | exact SL | ..]; unfold s', target_ev; destruct k; reflexivity. }
   split; auto. split; auto. apply cwf_intro.
   - unfold s', target_ev. destruct k; simpl; lia.
   - eapply nsf_mono; eauto.
-  - unfold s', target_ev. destruct k; simpl; auto; rewrite N.eqb_refl; reflexivity.
+  - unfold s', target_ev. destruct k; simpl; auto; try (rewrite N.eqb_refl; reflexivity). apply (w_tgts _ H). unfold u. lia.
+Qed.
+
+Lemma inst_plain_wf c s ci s' : QWF s -> inst c KPlain s = (ci, s') -> QWF s' /\ sle s s' /\ cwf s' ci.
+Proof.
+  intros H. unfold inst. destruct (take_caps (clo_caps c) s) as [caps s1] eqn:T. intros E; inversion E; subst. clear E.
+  destruct (take_caps_wf _ _ _ _ H T) as (H1 & N1 & T1 & L1).
+  assert (LC : lwf s1 caps) by (eapply nsf_same; [| |exact L1]; auto).
+  destruct (created_wf s1 (clo_id c) (KPlain (clo_body c)) caps H1 LC) as (A & B & C). rewrite N1 in A, B, C.
+  split; [exact A|]. split; [eapply sle_trans; [apply sle_same; eauto | exact B] | exact C].
 Qed.
 
 Lemma inst_call_wf c mk s ci s' : QWF s -> inst_call c mk s = (ci, s') ->
@@ -537,7 +545,7 @@ Proof.
   assert (L : sle s (emit (set_nuid s1 (nuid s1 + 1)%N) (EClo (nuid s1) (clo_id c)))).
   { split; [simpl; lia|]. exists [EClo (nuid s1) (clo_id c)]. split; [simpl; rewrite T1; reflexivity | apply fresh_notgt; reflexivity]. }
   split; [qe; apply Q_set_nuid; auto; lia|]. split; auto.
-  apply cwf_intro; [simpl; lia | eapply nsf_mono; eauto | exact I].
+  apply cwf_intro; [simpl; lia | eapply nsf_mono; eauto |]. simpl. rewrite T1. rewrite <- T1. apply (w_tgts _ H1). lia.
 Qed.
 
 Lemma tok_script_wf script : forall s, QWF s -> QWF (tok_script s script) /\ sle s (tok_script s script).
@@ -1212,7 +1220,7 @@ Lemma WF_init d p : WF (map MTop p ++ [MEpilogue]) (init d).
 Proof.
   split.
   - apply kwf_plain. intros m M. apply in_app_or in M as [M|[<-|[]]]; [|reflexivity]. apply in_map_iff in M as (o & <- & _). reflexivity.
-  - constructor; simpl; [lia | constructor | constructor | constructor | constructor | constructor | constructor | intros a0 x0 E0; discriminate E0].
+  - constructor; simpl; [lia | constructor | constructor | constructor | constructor | constructor | constructor | intros a0 x0 E0; discriminate E0 | reflexivity].
 Qed.
 
 (* every configuration the machine reaches from a program is well-formed *)
